@@ -6,6 +6,7 @@
 From Coq Require Import List Arith Bool ZArith.
 From FT Require Import Base.Dict Model.Edit Model.EditExec Proofs.EditInv Proofs.EditFrame.
 From FT Require Gen.History_gen Proofs.HistoryGeneric Proofs.HistoryTie Proofs.HistoryGen.
+From FT Require Proofs.EditInverse.
 Import ListNotations.
 
 Module G := FT.Gen.History_gen.
@@ -86,6 +87,27 @@ Proof. intros st a dA. split; [apply H.edit_hist_add_tie|apply H.edit_undo_tie].
 
 (* non-vacuity: a three-state history on a toy instance (states = numbers, an action adds its
    amount, its inverse subtracts it): edit, edit, undo, undo, edit, undo x3, redo *)
+(* (6) The timeline theorem instantiated for the edit machine.  States = model states, actions = recorded
+   groups, inv = inv_action made total, equivalence = observational equality between states with
+   well-formed dictionaries, Tr = [TrI W_dict] (Props/C01.v proves it for every accepted UserDeleteEdge,
+   UserAddEdge, UserSwapPredecessors, UserDeleteNode and UserAddNode made on a well-formed state:
+   the C01_consistent theorems).  For EVERY finite sequence of edits (each a recorded transition out of the current
+   state), undos and redos: the boolean results are those of the list+cursor timeline, the current state
+   is observably the state under the cursor, and the timeline only grows at its end. *)
+Theorem C02_edit_machine_timeline :
+  forall (dA : action) (dS : state) (ops : list (A.hop state action)) (s0 : state),
+  A.valid state action (EditInverse.inv_tot) (EditInverse.TrI W_dict) dA (T.g2a state action (G.init state action s0)) ops ->
+  let hr := H.grun state action (EditInverse.inv_tot) dA (G.init state action s0) ops in
+  let tr := A.trun state action {| A.tl := [s0]; A.c := 0 |} ops in
+  snd hr = snd tr /\
+  EditInverse.eqvI W_dict (G.cur state action (fst hr)) (nth (A.c state (fst tr)) (A.tl state (fst tr)) dS) /\
+  (exists ext, A.tl state (fst tr) = [s0] ++ ext).
+Proof.
+  intros dA dS ops s0 V.
+  exact (C02_timeline state action (EditInverse.eqvI W_dict) (EditInverse.eqvI_refl W_dict) (EditInverse.eqvI_trans W_dict)
+           EditInverse.inv_tot (EditInverse.TrI W_dict) (EditInverse.TrI_inv W_dict) (EditInverse.TrI_src W_dict) dA dS ops s0 V).
+Qed.
+
 Example C02_nonvacuous :
   let inv := fun (s : Z) (a : Z) => ((s - a)%Z, (- a)%Z) in
   let ops := [A.HEdit Z Z 5%Z 5%Z; A.HEdit Z Z 2%Z 7%Z; A.HUndo Z Z; A.HUndo Z Z; A.HEdit Z Z 1%Z 1%Z;
@@ -101,3 +123,4 @@ Print Assumptions C02_timeline.
 Print Assumptions C02_false_means_nothing.
 Print Assumptions C02_one_step.
 Print Assumptions C02_edit_machine_uses_generated.
+Print Assumptions C02_edit_machine_timeline.
